@@ -78,6 +78,9 @@ def load_known():
 def reflective(prop, tier, seed, oracle_module, level_note, extra_obligations=None, ncorr=None, oracle_args=None, gprops=True, seq_obligations=None, theorems=None, theory_obligations=None, gprops_from=None, pre_cmds=None, extra_harness=None, nthorough=None):
     t0 = time.time()
     problems = []       # broken obligations / correspondences (strings)
+    for d_ in ('gprops', 'gen'):          # generated directories do not exist in a fresh checkout
+        os.makedirs(os.path.join(COQ, d_), exist_ok=True)
+    os.makedirs(os.path.join(ROOT, 'work'), exist_ok=True)
     with coqbuild.Lock():
         ok, gen_out = regenerate()
         if not ok:
